@@ -12,7 +12,7 @@ VALUES = {
                  "$ENV{H}x", "a,b", "%"],
     "quoted": ['""', '"x"', '"a b"', '"\\""', '"a\\"b"', '"semi;colon"', '"${ref}"', '"  lead"', '"trail  "', '"#no comment"',
                '"(paren)"', '"\\\\"', '"a\\nb"', '"[[x]]"', '"\;"', '"$<A:b>"', '"a\\tb"', '" "', '"ü ✓"', '"\'"',
-               '"a""', ],
+               '"a""', '"Hello, \\\nWorld"', '"two\nlines"'],
     "ref": ["${VAR}", "${${nested}}", "$ENV{HOME}", "${a}${b}", "$CACHE{X}"],
     "bracket": ["[[br]]", "[=[a]]b]=]", "[[]]", "[==[x y]==]", "[[a\"b]]", "[[ (x) ]]", "[=[;]=]", "[[#c]]"],
 }
@@ -144,13 +144,33 @@ class Prop(BaseProp):
                 res.violate(f"kind:{e.kind}->{kind}", e.name, wit)
             ty = field_of(n, "type")
             dv = field_of(n, "Default value")
+            multi = any(isinstance(a_, str) and "\n" in a_ for a_ in e.item.args)
+            if multi:
+                # an argument that runs over several source lines: the line breaks end up in the page, and what follows the
+                # first of them is no longer part of the entry's block. Asserted is only what the statement says about the text
+                # itself: the field that shows the value starts with the value's first line, as written.
+                res.count("entries_with_multi_line_arguments")
+                if e.kind == "data" and e.fields["type"] != "UNSET":
+                    first = (" " + e.fields["Default value"]).split("\n")[0]
+                    got1 = dv[0].split("\n")[0] if dv else None
+                    if got1 != first:
+                        if True:
+                            res.violate(f"set-default:{e.fields['type']}:multi-line", f"{e.item.args}: default field starts {dv[:1]!r}, "
+                                        f"expected first line {first!r}", wit)
+                elif e.kind == "option":
+                    hp = field_of(n, "Help text")
+                    w_h = e.item.gt["help"]
+                    if "\n" in w_h and (not hp or hp[0] not in (" " + w_h.split("\n")[0], " " + unquote(w_h).split("\n")[0])):
+                        res.violate("option-help:multi-line", f"help field starts {hp[:1]!r}, written {w_h!r}", wit)
+                continue
             if e.kind == "data":
                 res.count("set_entries_checked")
                 res.see("set_types", e.fields["type"])
                 if ty != [" " + e.fields["type"]]:
                     res.violate(f"set-type:{e.fields['type']}", f"{e.item.args}: type field {ty}", wit)
                 if e.fields["type"] != "UNSET":
-                    if dv != [" " + e.fields["Default value"]]:
+                    want_dv = " " + e.fields["Default value"]
+                    if dv != [want_dv]:
                         res.violate(f"set-default:{e.fields['type']}", f"{e.item.args}: default field {dv!r}, expected "
                                     f"{e.fields['Default value']!r}", wit)
             else:
